@@ -193,6 +193,7 @@ def gen_facts():
         "def structFields : List (String × String × String) := " + sites(sorted(f.get("structFields") or [], key=lambda x: (x["file"], x["func"], x["what"]))),
         "def toolState : List (String × String × String) := " + sites(f.get("toolState")),
         "def directiveSeq : List (String × String × String) := " + sites(sorted(f.get("directiveSeq") or [], key=lambda x: (x["file"], x["func"]))),
+        "def unicodeLower : List (Nat × Nat × Nat) := [" + ", ".join(f"({a}, {b}, {c})" for a, b, c in (f.get("unicodeLower") or [])) + "]",
         "end Bkl.Facts", ""])
     path = os.path.join(LEAN, "Generated", "Facts.lean")
     os.makedirs(os.path.dirname(path), exist_ok=True)
